@@ -112,14 +112,29 @@ fn try_open(flavour: Flavour, path: &str, reserved: u32, mode: OpenMode, fl: Fre
     if flags & 16 != 0 {
         o = o.with_create_new(true);
     }
+    // every second open goes through the `*_with_path_builder` form of the constructor
+    let pb = if crate::arena::use_path_builder() { Some(std::path::PathBuf::from(path)) } else { None };
+    fn flat<T>(r: Result<T, rarena_allocator::either::Either<std::io::Error, std::io::Error>>) -> std::io::Result<T> {
+        r.map_err(|e| e.either(|l| l, |r| r))
+    }
     macro_rules! go {
         ($A:ty) => {{
-            let r = match mode {
-                OpenMode::MapMut => unsafe { o.with_write(true).map_mut::<$A, _>(path) },
-                OpenMode::MapCopy => unsafe { o.with_write(true).map_copy::<$A, _>(path) },
-                OpenMode::Map => unsafe { o.map::<$A, _>(path) },
-                OpenMode::MapCopyRo => unsafe { o.map_copy_read_only::<$A, _>(path) },
+            let r = match (mode, pb) {
+                (OpenMode::MapMut, None) => unsafe { o.with_write(true).map_mut::<$A, _>(path) },
+                (OpenMode::MapCopy, None) => unsafe { o.with_write(true).map_copy::<$A, _>(path) },
+                (OpenMode::Map, None) => unsafe { o.map::<$A, _>(path) },
+                (OpenMode::MapCopyRo, None) => unsafe { o.map_copy_read_only::<$A, _>(path) },
+                (OpenMode::MapMut, Some(pb)) => flat(unsafe { o.with_write(true).map_mut_with_path_builder::<$A, _, std::io::Error>(move || Ok(pb)) }),
+                (OpenMode::MapCopy, Some(pb)) => flat(unsafe { o.with_write(true).map_copy_with_path_builder::<$A, _, std::io::Error>(move || Ok(pb)) }),
+                (OpenMode::Map, Some(pb)) => flat(unsafe { o.map_with_path_builder::<$A, _, std::io::Error>(move || Ok(pb)) }),
+                (OpenMode::MapCopyRo, Some(pb)) => flat(unsafe { o.map_copy_read_only_with_path_builder::<$A, _, std::io::Error>(move || Ok(pb)) }),
             };
+            // an accepted read-only open yields a read-only arena
+            if let Ok(a) = &r {
+                if matches!(mode, OpenMode::Map | OpenMode::MapCopyRo) && !a.read_only() {
+                    return Err("NOT-READ-ONLY".to_string());
+                }
+            }
             r.map(|a| drop(a)).map_err(|e| format!("{:?}: {}", e.kind(), e))
         }};
     }
@@ -181,6 +196,13 @@ fn attempt(out: &mut Out, seed: &Seed, content: &[u8], what: &str, mode: OpenMod
         }
         Ok(r) => r,
     };
+    if let Err(e) = &r {
+        if e == "NOT-READ-ONLY" {
+            out.viol("C09", &format!("read-only-open-yields-writable-arena:{:?}", mode), detail("read_only() is false on an arena opened with a read-only variant".into()));
+            let _ = std::fs::remove_file(&path);
+            return;
+        }
+    }
     match (&r, verdict) {
         (Ok(()), Verdict::MustFail) => {
             out.viol("C09", &format!("open-accepted-bad-file:{:?}", mode), detail("open succeeded although the identification rule says it must fail".into()));
@@ -303,9 +325,12 @@ fn part_a(out: &mut Out, rng: &mut Rng, seeds: &[Seed], thorough: bool) {
 fn part_b<A: VArena>(out: &mut Out, seed: &Seed, mode: OpenMode, only: Option<u64>) {
     let before = std::fs::read(&seed.path).expect("seed file");
     let o = Options::new().with_reserved(seed.cfg.reserved).with_magic_version(seed.cfg.magic).with_freelist(seed.cfg.freelist.to()).with_read(true);
-    let a: A = match mode {
-        OpenMode::Map => unsafe { o.map::<A, _>(&seed.path) },
-        _ => unsafe { o.map_copy_read_only::<A, _>(&seed.path) },
+    let pb = if crate::arena::use_path_builder() { Some(std::path::PathBuf::from(&seed.path)) } else { None };
+    let a: A = match (mode, pb) {
+        (OpenMode::Map, None) => unsafe { o.map::<A, _>(&seed.path) },
+        (OpenMode::Map, Some(pb)) => unsafe { o.map_with_path_builder::<A, _, std::io::Error>(move || Ok(pb)) }.map_err(|e| e.either(|l| l, |r| r)),
+        (_, None) => unsafe { o.map_copy_read_only::<A, _>(&seed.path) },
+        (_, Some(pb)) => unsafe { o.map_copy_read_only_with_path_builder::<A, _, std::io::Error>(move || Ok(pb)) }.map_err(|e| e.either(|l| l, |r| r)),
     }
     .expect("read-only open of a valid file");
     let a: &'static A = Box::leak(Box::new(a));
